@@ -1172,7 +1172,13 @@ class Interp:
             b = self.builtin(f.id, e, args, kwargs, env, depth)
             if b is not None:
                 return b
-        fv = self.expr(f, env, depth)
+        if isinstance(f, ast.Attribute):
+            base = self.force(self.expr(f.value, env, depth), deref=True)
+            if base[0] == "ext":
+                return self.method_call(base, f.attr, args, kwargs, env, depth, e)
+            fv = self.get_attr(base, f.attr, env, depth, f)
+        else:
+            fv = self.expr(f, env, depth)
         return self.apply(fv, args, kwargs, env, depth, e)
 
     def eval_args(self, e, env, depth):
@@ -1447,8 +1453,10 @@ class Interp:
                 return ("fn", "join", [recv] + (items if items is not None else [args[0]]))
             return ("fn", name, [recv] + list(args))
         if k == "ext":
-            # an unknown method called on an opaque external object: the object now carries what was put into it
+            # an unknown method called on an opaque external object: the object now carries what was put into it,
+            # and the call is recorded (dispatcher / protocol / manager calls are effects some rules look at)
             recv[2].extend(list(args) + list(kwargs.values()))
+            self.emit("CALL", recv[1] + "." + name, list(args))
         return ("fn", name, [recv] + list(args) + list(kwargs.values()))
 
 
